@@ -369,7 +369,7 @@ func (o *Obj) ToK8s() client.Object {
 	case KService:
 		svc := &api.Service{ObjectMeta: meta(o)}
 		svc.Spec.Type = api.ServiceTypeClusterIP
-		svc.Spec.ClusterIP = "10.96.0.1"
+		svc.Spec.ClusterIP = ClusterIP(o)
 		if o.Headless {
 			svc.Spec.ClusterIP = api.ClusterIPNone
 		}
@@ -513,4 +513,25 @@ func EndpointSlices(o *Obj) []*discoveryv1.EndpointSlice {
 		}
 	}
 	return out
+}
+
+
+// ClusterIP is the cluster IP of a (not headless) Service of the world: one per namespace and name.
+func ClusterIP(o *Obj) string {
+	n := 9
+	switch o.NS {
+	case "a":
+		n = 1
+	case "b":
+		n = 2
+	case "ab":
+		n = 3
+	}
+	m := 200
+	if len(o.Name) >= 2 && o.Name[0] == 's' {
+		if v, err := strconv.Atoi(o.Name[1:]); err == nil && v >= 0 && v < 200 {
+			m = v
+		}
+	}
+	return fmt.Sprintf("10.96.%d.%d", n, m)
 }
